@@ -145,11 +145,12 @@ func wmFreeRun(seed int64) {
 		}
 		b := &fb{cancel: make(chan struct{})}
 		opts := []QueryOption{Cancel(b.cancel)}
-		switch rng.Intn(3) {
-		case 0:
+		// retry cap 0..3 (or the default), with or without NoRetryMax
+		if rng.Intn(4) != 0 {
+			opts = append(opts, NumRetries(uint8(rng.Intn(4))))
+		}
+		if rng.Intn(3) == 0 {
 			opts = append(opts, NoRetryMax())
-		default:
-			opts = append(opts, NumRetries(uint8(1+rng.Intn(3))))
 		}
 		if rng.Intn(3) == 0 {
 			opts = append(opts, Timeout(time.Duration(5+rng.Intn(40))*time.Millisecond))
